@@ -297,6 +297,7 @@ func exploreHarness(p *program, fn *ssa.Function, nw int, solverKind string, tmo
 			w.in.sharedGraph = p.snap.shared
 			w.in.funcsSeen = map[*ssa.Function]bool{}
 			defer func() {
+				s := w.solver // may have been restarted
 				s.close()
 				mu.Lock()
 				for f := range w.in.funcsSeen {
@@ -355,6 +356,17 @@ func exploreHarness(p *program, fn *ssa.Function, nw int, solverKind string, tmo
 // A non-empty return value is an engine fault.
 func (w *worker) runPath(ex *explorer, fn *ssa.Function, prefix []decision, replay []draw) (fault string) {
 	in := w.in
+	if w.solver != nil && w.solver.killed {
+		// the previous path lost its solver to the watchdog
+		st := w.solver.stats
+		w.solver.close()
+		ns, err := newSolver(w.solver.name, w.solver.tmoMs)
+		if err != nil {
+			return "solver restart: " + err.Error()
+		}
+		ns.stats = st
+		w.solver = ns
+	}
 	in.priv = w.p.snap.instantiate()
 	in.side = newSideTables()
 	in.sch = newSched(in)
